@@ -55,7 +55,35 @@ CHECKS = {
         design="8/C04",
         note=TRUST + "abstract contracts are instantiated at the indices each path mentions; transported exactness and reference integrals are bounded only.",
         technique="contract-based deductive verification over abstract (uninterpreted) transform/grid contracts, z3; bounded run-time contracts as labelled stand-in"),
+    "C01": dict(
+        category="proof",
+        text="Every closed-form rule: the real constructor is executed with a symbolic number of points; nodes and weights at a generic index equal "
+             "the rule's mathematical definition (series rules: the code's reduction is matched against the specification sum by sum-range / "
+             "sum-term obligations; variable-substitution rules: weights = step x derivative of the node map extracted from the code's own nodes), "
+             "ascending order, domain containment, acceptance by OneDGrid.__init__, Trefethen maps (derivative functions, end points, composition), "
+             "Newton-Cotes panel lemmas. Library Gauss rules enter through assumed callee contracts. FejerSecond's range obligation fails on the "
+             "unchanged tree and is matched to the recorded finding by a proved signature. Bounded layer: monomial exactness to the nominal degree, "
+             "weight-function moments, finite-difference node-map derivatives, n = 2..24 (thorough ..200).",
+        design="8/C01",
+        note=TRUST + "assumed contracts of leggauss/chebgauss/roots_chebyu/roots_genlaguerre; interpolatory exactness of CC/Fejer closed forms and global "
+             "superposition of panels are cited, validated only by the bounded layer; trigonometric axioms instantiated per term.",
+        technique="contract-based deductive verification: AST symbolic execution with symbolic sizes, reduction matching, differentiation operator, z3/cvc5; bounded run-time contracts as labelled stand-in"),
 }
+BOUNDED_ONLY = {
+    "C06": ("8/C06", "Becke/Hirshfeld weights: bounds, partition of unity, nuclei values, all evaluation routes, rigid-motion/relabelling invariance, chunking with several chunks, radius fall-back for every Z"),
+    "C08": ("8/C08", "real spherical harmonics against a 50+ digit closed-form oracle up to l=20 (thorough 60/90), both implementations, addition theorem, derivatives, solid harmonics, coordinate conversion"),
+    "C11": ("8/C11", "PeriodicGrid local grids against brute-force image enumeration for dims 1-3 x 0..dim lattice vectors, skewed/negative/long/short cells, wrapped or not, empty spheres"),
+    "C14": ("8/C14", "order generator exhaustively to order 10 (thorough 40) and Grid.moments for all four types against explicit fsum oracles, several centres, 1-3 dimensions, dipole helper"),
+    "C18": ("8/C18", "MultiDomainGrid enumeration/integration on all size combinations up to 6 per domain, 1-4 domains, every chunk size 1..total+1, exact integer family, _chunked_iterator contracts"),
+}
+for _pid, (_ref, _what) in BOUNDED_ONLY.items():
+    CHECKS[_pid] = dict(
+        category="exploration",
+        text="Bounded run-time contracts on the real functions (no proof obligations yet for this property): " + _what +
+             ". Oracles are independent of the implementation; recorded findings are matched by exact signatures.",
+        design=_ref,
+        note="bounded family only (sizes and seeds stated in the evidence rule); floats compared with noise-aware tolerances; nothing is proved for all inputs.",
+        technique="run-time-checked contracts on the real functions over a generated bounded family (labelled bounded stand-in of the contract-based family; deductive obligations pending)")
 NOT_YET = {}
 
 
